@@ -1,19 +1,11 @@
 """C06 — a failing link argument (Context.evaluate_parameter): the failure is logged and surfaces as an EvaluationException that names
 the query being evaluated (not its parent, not the link) and the position of the failing argument; a link that failed never yields a
-value.  String arguments pass through untouched.  The sub-evaluation itself (evaluate / apply) is used through its contract."""
+value.  String arguments pass through untouched.  The sub-evaluation itself (evaluate / apply) is used through its contract (apply: contracts/c06_apply.py)."""
 from pyvc.dsl import *
 from contracts.c13_caches import SMeta, Data, ST
 from contracts.c05_evaluate import CX, Any
 
 AP = Ref("ActionParameter")
-
-
-@assumed("liquer.context.Context.apply", params=dict(self=CX, query=Ref("Query"), description=Opt(Str)), returns=ST)
-def _(self, query, description=None):
-    raises(EvaluationException, label="a-nested-evaluation-or-a-link-argument-failed")
-    raises(Exception, label="the-sub-evaluation-raised")
-    modifies_any("State.metadata")
-    ensures(rec_has(result.metadata, "is_error"))
 
 
 @contract("liquer.context.Context.evaluate_parameter@failure", params=dict(self=CX, p=AP, action=Ref("ActionRequest")), returns=AP,
